@@ -187,3 +187,103 @@ def ring_of(*arrays):
             if np.iscomplexobj(b):
                 return 'GRing'
     return 'ZRing'
+
+
+# ------------------------------------------------------------------ fermionic
+def glabel(lab):
+    if isinstance(lab, bool):
+        raise ValueError('bool label')
+    if isinstance(lab, int):
+        vals = [lab]
+    elif isinstance(lab, str):
+        vals = [ord(ch) for ch in lab]
+    elif isinstance(lab, tuple):
+        vals = list(lab)
+    else:
+        raise ValueError('label type %r' % type(lab))
+    return '[' + '; '.join(gnum(v) for v in vals) + ']'
+
+
+def goddpos(ops):
+    return '[' + '; '.join('(%s, %s)' % (glabel(o.label), 'true' if o.dual else 'false') for o in ops) + ']'
+
+
+def gfarray(x, sym, ring):
+    minus = [s for s, p in x.phases.items() if p == -1]
+    return '(mkF %s %s %s %s %s)' % (sym, ring, garray(x, sym, ring), '[' + '; '.join(gsec(s) for s in minus) + ']',
+                                     goddpos(x.oddpos))
+
+
+def rand_lazy(rng, sr, x, steps=None):
+    """pending signs reachable by transpose / phase_flip / phase_transpose / phase_global / conj;
+    the array's VALUE changes along the way, which is fine: the result is the test input"""
+    n = x.ndim
+    if steps is None:
+        steps = rng.randint(0, 3)
+    for _ in range(steps):
+        op = rng.choice(['flip', 'ptrans', 'global', 'trans_back', 'sector'])
+        if op == 'flip' and n:
+            x = x.phase_flip(*rng.sample(range(n), rng.randint(1, n)))
+        elif op == 'ptrans' and n:
+            p = list(range(n)); rng.shuffle(p)
+            x = x.phase_transpose(tuple(p))
+        elif op == 'global':
+            x = x.phase_global()
+        elif op == 'trans_back' and n:
+            p = list(range(n)); rng.shuffle(p)
+            inv = [p.index(i) for i in range(n)]
+            x = x.transpose(tuple(p)).transpose(tuple(inv))
+        elif op == 'sector' and x.blocks:
+            x = x.phase_sector(rng.choice(list(x.blocks)))
+    return x
+
+
+def inv_parity(parities, perm):
+    """odd-odd inversion parity of a permutation (new position k holds old axis perm[k])"""
+    n = 0
+    for i in range(len(perm)):
+        for j in range(i + 1, len(perm)):
+            if perm[i] > perm[j] and parities[perm[i]] and parities[perm[j]]:
+                n += 1
+    return n % 2
+
+
+def label_key(op):
+    """own statement of the odd-position order: conjugated (dual) operators first, in
+    descending label order, then plain ones ascending"""
+    lab = op.label
+    return (0, _neg_key(lab)) if op.dual else (1, _pos_key(lab))
+
+
+class _Rev:
+    def __init__(self, v):
+        self.v = v
+
+    def __lt__(self, o):
+        return o.v < self.v
+
+    def __eq__(self, o):
+        return self.v == o.v
+
+
+def _pos_key(lab):
+    return lab
+
+
+def _neg_key(lab):
+    return _Rev(lab)
+
+
+def merge_sign(lops, rops, left_parity):
+    """sign and sorted label list for concatenating two sorted, conjugate-free,
+    mutually distinct label lists (own inversion count, not the library's sort)"""
+    ops = list(lops) + list(rops)
+    sign = 1 if (left_parity and len(rops) % 2 == 1) else 0
+    keys = [label_key(o) for o in ops]
+    inv = 0
+    for i in range(len(ops)):
+        for j in range(i + 1, len(ops)):
+            if keys[j] < keys[i]:
+                inv += 1
+    order = sorted(range(len(ops)), key=lambda i: keys[i])
+    return (sign + inv) % 2, [ops[i] for i in order]
